@@ -67,14 +67,63 @@ def holds(kind, detail, value):
     return value
 
 
+# The letter expansion ("numerify") appears in conditions as an opaque call of whichever per-character function could not be followed on
+# symbolic text - today schwifty.checksum.numerify, after a refactoring possibly a helper of it that returns the digit string.  Rules
+# never go by its name: any opaque call with one symbolic-text argument is an expansion call; what it computes is established by
+# evaluating that function on concrete strings (rule_numerify), and whether it returns the number or its digit string by `call_kind`.
+_FACTS = [None]
+_KINDS = {}
+
+
+def set_facts(facts):
+    _FACTS[0] = facts
+    _KINDS.clear()
+
+
+def _is_text_call(s):
+    if not (isinstance(s, Sym) and s.kind == "call" and isinstance(s.args[1], tuple) and len(s.args[1]) == 1):
+        return False
+    a = s.args[1][0]
+    if isinstance(a, tuple) and a and a[0] == "obj":
+        a = a[2]
+    return isinstance(a, (SStr, Sym))
+
+
+def call_concrete(facts, qual, text):
+    """Outcome of the package function ``qual`` on one concrete string (evaluated through the abstract evaluator)."""
+    f = facts.program.get(qual)
+    it = facts.interp()
+    try:
+        outs = it.explore(lambda: it.call_func(f, [text], {}, None), max_paths=20)
+    except Exception as e:  # CannotEvaluate / PathLimit
+        raise AnalysisError(f"cannot evaluate {qual}({text!r}): {e}")
+    outs = [o for o in outs if o.kind != "infeasible"]
+    if len(outs) != 1:
+        raise AnalysisError(f"{qual} is not deterministic on a concrete string")
+    return outs[0]
+
+
+def call_kind(qual):
+    """'int' when the expansion function returns the number, 'str' when it returns its decimal digit string."""
+    if qual not in _KINDS:
+        if _FACTS[0] is None:
+            raise AnalysisError("validator model not initialised")
+        o = call_concrete(_FACTS[0], qual, "1A")
+        v = o.value if o.kind == "return" else None
+        if isinstance(v, bool) or not isinstance(v, (int, str)):
+            raise AnalysisError(f"opaque string function {qual} returns neither a number nor a digit string on '1A' ({v!r})")
+        _KINDS[qual] = "int" if isinstance(v, int) else "str"
+    return _KINDS[qual]
+
+
 def eval_sym(expr, numerify_value):
-    """Evaluate an opaque arithmetic / formatting term with every numerify(...) call := numerify_value."""
+    """Evaluate an opaque arithmetic / formatting term with the number the expansion call stands for := numerify_value."""
     if isinstance(expr, (int, str)) and not isinstance(expr, Sym):
         return expr
     if isinstance(expr, Sym):
         k = expr.kind
-        if k == "call" and expr.args[0].endswith("numerify"):
-            return numerify_value
+        if _is_text_call(expr):
+            return numerify_value if call_kind(expr.args[0]) == "int" else str(numerify_value)
         if k == "binop":
             op, a, b = expr.args
             a, b = eval_sym(a, numerify_value), eval_sym(b, numerify_value)
@@ -86,11 +135,19 @@ def eval_sym(expr, numerify_value):
             return "".join(str(eval_sym(p, numerify_value)) for p in expr.args[0])
         if k == "str":
             return str(eval_sym(expr.args[0], numerify_value))
+        if k == "int":
+            v = eval_sym(expr.args[0], numerify_value)
+            if isinstance(v, (int, str)):
+                return int(v)
     raise AnalysisError(f"cannot evaluate opaque term {expr!r}")
 
 
+def expansion_call(expr):
+    return _find(expr, _is_text_call)
+
+
 def numerify_arg(expr):
-    c = _find(expr, lambda s: isinstance(s, Sym) and s.kind == "call" and s.args[0].endswith("numerify"))
+    c = expansion_call(expr)
     if c is None:
         return None
     (arg,) = c.args[1]
@@ -172,6 +229,7 @@ class Model:
     def __init__(self, ctx):
         self.ctx = ctx
         self.facts = ctx.facts
+        set_facts(ctx.facts)
         self.prog = ctx.program
         self.va = ValidatorAnalysis(self.facts)
         self.paths = {}
@@ -237,6 +295,7 @@ class IbanModel(Model):
 
     def __init__(self, ctx, with_validate=True):
         super().__init__(ctx)
+        set_facts(ctx.facts)
         self.entries = [("init", "init", {}), ("init_bban", "init", {"validate_bban": True}),
                         ("is_valid", "is_valid", {})]
         if with_validate:
@@ -304,5 +363,6 @@ class LightModel:
     def __init__(self, ctx):
         self.ctx = ctx
         self.facts = ctx.facts
+        set_facts(ctx.facts)
         self.prog = ctx.program
         self.va = ValidatorAnalysis(self.facts)
